@@ -45,15 +45,21 @@ Deep3Base == BaseOps \o <<[op |-> "gadd", inst |-> "r1", m |-> Hosts(<<"a.com">>
              \o <<[op |-> "gnew", inst |-> "r3", m |-> Nil, cfg |-> RC("r3", FALSE)]>> \o Table("r3")
              \o <<[op |-> "gnew", inst |-> "r4", m |-> PV(<<"v1", "v11">>), cfg |-> RC("r4", FALSE)]>> \o Table("r4")
 Deep3Ops == {[op |-> "gremove", inst |-> n] : n \in {"r1", "r2", "r3", "r4"}} \cup {[op |-> "gadd", inst |-> "r1", m |-> Nil], [op |-> "guse", mws |-> <<"h">>]}
+\* C16: a recovery override given to one Group.New router must not reach the next one
+Deep16Base == BaseOps \o <<[op |-> "gnew", inst |-> "r3", m |-> Hosts(<<"a.com">>), cfg |-> RCT("r3", TRUE)]>> \o Table("r3")
+              \o <<[op |-> "gnew", inst |-> "r4", m |-> Nil, cfg |-> RC("r4", FALSE)]>> \o Table("r4")
 Init == \E rec \in Recs : \/ ("full" \in Alphas /\ G = ApplyAll(NewGroup(rec), BaseOps, 1) /\ hist = BaseOps /\ nbase = Len(BaseOps) /\ alpha = "full")
                            \/ ("deep" \in Alphas /\ G = ApplyAll(NewGroup(rec), DeepBase, 1) /\ hist = DeepBase /\ nbase = Len(DeepBase) /\ alpha = "deep")
                            \/ ("deep" \in Alphas /\ G = ApplyAll(NewGroup(rec), Deep3Base, 1) /\ hist = Deep3Base /\ nbase = Len(Deep3Base) /\ alpha = "deep3")
+                           \/ ("deep16" \in Alphas /\ G = ApplyAll(NewGroup(rec), Deep16Base, 1) /\ hist = Deep16Base /\ nbase = Len(Deep16Base) /\ alpha = "deep16")
 Next == /\ UNCHANGED <<nbase, alpha>>
         /\ \/ /\ alpha = "full" /\ Len(hist) - nbase < Depth
               /\ \/ \E o \in GOps : G' = ApplyGOp(G, o).g /\ hist' = Append(hist, o)
                  \/ \E o \in GNewOps : GNewOK(G, o.inst) /\ G' = ApplyAll(ApplyGOp(G, o).g, Table(o.inst), 1) /\ hist' = Append(hist, o) \o Table(o.inst)
            \/ /\ alpha = "deep" /\ Depth > 0 /\ Len(hist) - nbase < 3
               /\ \E o \in DeepOps : G' = ApplyGOp(G, o).g /\ hist' = Append(hist, o)
+           \/ /\ alpha = "deep16" /\ Depth > 0 /\ Len(hist) - nbase < 1
+              /\ \E o \in {[op |-> "guse", mws |-> <<"h">>], [op |-> "gremove", inst |-> "r1"]} : G' = ApplyGOp(G, o).g /\ hist' = Append(hist, o)
            \/ /\ alpha = "deep3" /\ Depth > 0 /\ Len(hist) - nbase < 2
               /\ \E o \in Deep3Ops : G' = ApplyGOp(G, o).g /\ hist' = Append(hist, o)
 Spec == Init /\ [][Next]_vars
@@ -69,6 +75,7 @@ FaultVals == {"error", "string", "runtime", "abort"}
 FaultSites == {"h:route", "h:opt", "h:405", "h:404", "h:trace", "h:gnf", "mw:m", "mw:g", "mw:h", "mw:i"}
 ReqsC16 == {Rq(k, n, m, p, "a.com", "", (s :> v)) : k \in {"gserve", "rserve"}, n \in {"r1", "r2"}, m \in {"GET", "POST", "OPTIONS", "TRACE"},
                                                     p \in {"/x", "/v1/x", "/nope/y/z"}, s \in FaultSites, v \in FaultVals}
+           \cup {Rq("gserve", "", m, p, "c.com", "", (s :> "error")) : m \in {"GET", "POST"}, p \in {"/x", "/nope/y/z"}, s \in {"h:route", "h:404", "h:405", "mw:m"}}
            \cup {Rq(k, n, "GET", p, "a.com", "", <<>>) : k \in {"gserve", "rserve"}, n \in {"r1", "r2"}, p \in {"/x", "/v1/x"}}
 Reqs == IF ReqSel = "C16" THEN ReqsC16 ELSE ReqsC13
 
